@@ -123,9 +123,16 @@ macro_rules! common {
         shift_forms!(op, a, $T, u8, u16, u32, u64, u128, usize, i8, i16, i32, i64, i128, isize);
         bshift_forms!(op, a, $T, "bu", $UT);
         bshift_forms!(op, a, $T, "bi", $IT);
-        if !a.is_empty() && !mode_ok(a[0]) { return Some("skip".into()); }
+        if op != "from_str" && !a.is_empty() && !mode_ok(a[0]) { return Some("skip".into()); }
         let list = |s: &str| -> Vec<$T> { if s == "-" { vec![] } else { s.split(',').map(|t| <$T>::from_hex(t)).collect() } };
         match op {
+            "from_str" => {
+                let b = parse_bytes(a[0]);
+                return Some(match std::str::from_utf8(&b) {
+                    Ok(st) => match <$T as core::str::FromStr>::from_str(st) { Ok(x) => format!("Ok({})", x.to_hex()), Err(e) => format!("Err({:?})", e.kind()) },
+                    Err(_) => "bad-utf8".into(),
+                })
+            }
             "not_v" => return Some(<$T as Not>::not(<$T>::from_hex(a[1])).out()),
             "not_r" => return Some(<&$T as Not>::not(&<$T>::from_hex(a[1])).out()),
             "not_inh" => return Some(<$T>::not(<$T>::from_hex(a[1])).out()),
